@@ -3,6 +3,7 @@ import SynRBLModel.Driver.Ops.Core
 import SynRBLModel.Model.Pipeline
 import SynRBLModel.Model.Batching
 import SynRBLModel.Model.StatsDict
+import SynRBLModel.Model.Cli
 /-! Driver ops of the row state machine. Oracle answers recorded from the real run travel with the op. -/
 namespace SynRBL.Drv.Pipeline
 open Lean SynRBL.Drv
@@ -89,8 +90,24 @@ def opMergeStats (j : Json) : R Json := do
     let n ← parseDict (← field j "n")
     return Json.mkObj [("merged", dictJ (mergeStats s n))]
 
+def parseRec (j : Json) : R Cli.Rec := do
+  (← toList j).mapM fun p => do
+    match ← toList p with
+    | [k, v] => return (← k.getStr?, ← v.getStr?)
+    | _ => throw "record entry must be a [column, value] pair"
+
+def recJ (r : Cli.Rec) : Json := listJ (fun kv => Json.arr #[Json.str kv.1, Json.str kv.2]) r
+
+/-- the copy loop of `cmd_run.impute` on CSV records (all values as strings) -/
+def opPassThrough (j : Json) : R Json := do
+  let cols ← strList (← field j "cols")
+  let ins ← (← arrF j "ins").mapM parseRec
+  let outs ← (← arrF j "outs").mapM parseRec
+  return Json.mkObj [("rows", listJ recJ (Cli.passThrough cols ins outs))]
+
 def dispatch? (op : String) (j : Json) : Option (R Json) :=
   match op with
+  | "passThrough" => some (opPassThrough j)
   | "mergeStats" => some (opMergeStats j)
   | "pipelineRow" => some (opPipelineRow j)
   | "chunks" => some (opChunks j)
